@@ -650,6 +650,7 @@ def pysmiles_reads(m, rng):
 
 # ------------------------------------------------------------------------------ implementation driver
 KEEP_NODE = ('element', 'fragid', 'chiral', 'ez_isomer_class', 'ez_isomer')
+FRAG_KEYS = ('element', 'chiral', 'ez_isomer_class', 'bonding')
 
 
 def graph_lit(g):
@@ -889,7 +890,7 @@ class C15(common.Prop):
 
     def describe(self, case):
         d = {'s': case['s'], 'mol': case['mol'], 'kind': case.get('kind', '')}
-        for k in ('raw', 'judged', 'wb'):
+        for k in ('raw', 'judged', 'wb', 'hfree'):
             if k in case:
                 d[k] = case[k]
         return d
@@ -930,7 +931,15 @@ class C15(common.Prop):
         R.annotate_ez_isomers_cgsmiles = wrapped
         try:
             try:
-                _, g = R.MoleculeResolver.from_string(case['s']).resolve_all()
+                resolver = R.MoleculeResolver.from_string(case['s'])
+                # the fragment graphs read_fragments built, with the fragment texts (for EzCheck.frag_ok)
+                texts = {}
+                for f in case['s'].split('.{', 1)[1][:-1].split(','):
+                    d = f.find('=')
+                    texts.setdefault(f[1:d], f[d + 1:])
+                rec['frags'] = [(name, texts[name], lit.obs_graph(fg, only_node=FRAG_KEYS, only_edge=('order',)))
+                                for name, fg in resolver.fragment_dicts[-1].items() if name in texts]
+                _, g = resolver.resolve_all()
             except Exception as exc:
                 rec['raised'] = '%s: %s' % (type(exc).__name__, str(exc)[:100])
                 return rec
@@ -987,13 +996,15 @@ class C15(common.Prop):
         ident = impl.get('ident') or impl.get('ident_before')
         wbl = lit.lst(['(%s, %s, %s, %s)' % (lit.z(l), lit.z(an), lit.b(w), lit.b(c)) for l, an, w, c in case.get('wb', [])])
         return ('{| c_judged := %s; c_before := %s; c_after := %s; c_ret := %s; c_atoms := %s; c_bonds := %s; '
-                'c_ident := %s; c_chiral := %s; c_rel := %s; c_wb := %s |}'
+                'c_ident := %s; c_chiral := %s; c_rel := %s; c_wb := %s; c_frags := %s; c_str := %s |}'
                 % (lit.b(case.get('judged', True)), '(Some %s)' % before if before else 'None',
                    '(Some %s)' % after if after else 'None',
                    '(Some %s)' % ret if ret else 'None',
                    atoms, bonds,
                    lit.lst([lit.pair(lit.z(a), lit.z(b)) for a, b in ident]) if ident is not None else '[]',
-                   chir, rel, wbl))
+                   chir, rel, wbl,
+                   lit.lst(['(%s, %s, %s)' % (lit.s(n), lit.s(t), o) for n, t, o in impl.get('frags', [])]),
+                   '(Some %s)' % lit.s(case['s']) if case.get('hfree') else 'None'))
 
     def python_oracle(self, case, impl):
         return py_oracle(case, impl)
@@ -1111,5 +1122,12 @@ _WR = _wmol(['O', 'C', 'C', 'C', 'C', 'C', 'C', 'F', 'C', 'Cl', 'Br'],
 WITNESSES[-1]['mol'] = _WR
 WITNESSES.append({'s': '{[#A]}.{#A=OC%10CCCC%10[C;x=R](F)[C;x=S](Cl)Br}', 'mol': _WR, 'kind': 'witness ring label single',
                   'nparts': 1})
+
+# witnesses whose atoms carry no hydrogens: the whole model from the STRING (EzStrings.resolve_string) is compared too
+_HFREE = ('#A=F/C(Cl)=[$],#B=[$]=C(Br)/I}', '#A=F/C(Cl)=C(Br)/I}', '#A=F/[$],#B=[$]/C(Cl)=C(/Br)I}',
+          '#A=F/[$],#B=[$]/C(/Cl)=C(/Br)I}')
+for _w in WITNESSES:
+    if _w['s'].split('.{', 1)[1] in _HFREE:
+        _w['hfree'] = True
 
 PROP = C15()
